@@ -1,11 +1,12 @@
 SPECIFICATION Spec
-CONSTANT Ploidies = {2, 4}
-CONSTANT AlleleCounts = {2, 3}
+CONSTANT Ploidies = {16}
+CONSTANT AlleleCounts = {3}
 CONSTANT MaxReads = 2
 CONSTANT MaxCount = 2
+CONSTANT Fs <- FsZero
+CONSTANT Perms <- PermsSafe
 INVARIANT WeightsPositive
 INVARIANT HomozygotesListed
 INVARIANT GapIsNeutral
-INVARIANT PermsAgree
 CONSTRAINT Dump
 CHECK_DEADLOCK FALSE
